@@ -28,6 +28,22 @@ type JobSpec struct {
 	Steps   int64
 }
 
+// lateJob: the unconstrained F(4) bounds are by far the most expensive ones of the
+// thorough tier; they run after everything else so that the time budget is spent on
+// them last and the cheaper bounds are never starved.
+func lateJob(js *JobSpec) bool {
+	if js.Tier != "thorough" || len(js.Params) < 2 {
+		return false
+	}
+	switch js.Harness {
+	case "H_C02", "H_C03", "H_C05", "H_C13", "H_C04", "H_C16", "H_C12_closure", "H_C14_eol", "H_C14_final", "H_C09_quote", "H_C09_quote_bare", "H_C19":
+		return js.Params[0] == 0 && js.Params[1] >= 4
+	case "H_C01_F", "H_C07", "H_C10", "H_C04_format", "H_C19_format", "H_C20_total":
+		return js.Params[0] >= 4 && js.Params[0] < 100
+	}
+	return false
+}
+
 type PropSpec struct {
 	ID          string
 	Level       string
@@ -179,7 +195,16 @@ func runProperty(verifDir string, spec *PropSpec, tier string, seed int64, worke
 	var evidenceSamples []any
 	skippedUnits := []string{}
 
-	for ji, js := range spec.Jobs {
+	var order []int
+	for pass := 0; pass < 2; pass++ {
+		for ji := range spec.Jobs {
+			if lateJob(&spec.Jobs[ji]) == (pass == 1) {
+				order = append(order, ji)
+			}
+		}
+	}
+	for _, ji := range order {
+		js := spec.Jobs[ji]
 		if js.Tier == "thorough" && tier != "thorough" {
 			continue
 		}
